@@ -29,8 +29,16 @@ Proof. exact (proj1 (B_disp s (invB_reach _ _ R))). Qed.
       a waiter returns only when the reply to its very request has been dispatched *)
 Theorem c13_callback_owner : forall q t, pending s q = Some t -> myseq (thrs s t) = Some q.
 Proof. intros q. exact (proj2 (B_pend s (invB_reach _ _ R) q)). Qed.
-Theorem c13_ready_iff_dispatched : forall q, ready s q = true <-> In q (dispatched s).
-Proof. intros q. pose proof (invB_reach _ _ R) as I. rewrite (B_ready s I q). symmetry. apply (proj2 (B_disp s I) q). Qed.
+(* a result cell is ready exactly when its reply has been dispatched and was not late: a reply dispatched after the request's own
+   expiry is dropped (AsyncResult.__call__), and [late] is only ever set after that expiry *)
+Theorem c13_ready_iff_dispatched : forall q, ready s q = true <-> (In q (dispatched s) /\ late s q = false).
+Proof. intros q. pose proof (invB_reach _ _ R) as I. rewrite (B_ready s I q). rewrite (proj2 (B_disp s I) q). tauto. Qed.
+Theorem c13_late_only_after_expiry : forall q, late s q = true -> In q (dispatched s) /\ expd s q = true.
+Proof. intros q H. pose proof (invB_reach _ _ R) as I. destruct (B_late s I q H) as [A B]. split; [now apply (proj2 (B_disp s I) q)|exact B]. Qed.
+(* a wait gives up only after its own expiry, with its cell not ready *)
+Theorem c13_gives_up_only_after_expiry : forall i, tpc (thrs s i) = TimedOut ->
+  exists q, myseq (thrs s i) = Some q /\ expd s q = true /\ ready s q = false.
+Proof. exact (invD_reach _ _ R). Qed.
 Theorem c13_return_means_own_reply : forall i, tpc (thrs s i) = Returned ->
   exists q, myseq (thrs s i) = Some q /\ ready s q = true /\ In q (dispatched s).
 Proof.
@@ -54,6 +62,8 @@ Print Assumptions c13_single_reader.
 Print Assumptions c13_dispatch_once.
 Print Assumptions c13_callback_owner.
 Print Assumptions c13_ready_iff_dispatched.
+Print Assumptions c13_late_only_after_expiry.
+Print Assumptions c13_gives_up_only_after_expiry.
 Print Assumptions c13_return_means_own_reply.
 Print Assumptions c13_seq_unique.
 Print Assumptions c13_no_lost_wakeup.
